@@ -91,7 +91,25 @@ pub fn gen_int(r: &mut Rng) -> Term {
     }
 }
 
+/// Bring a descriptor into the domain C10 states ("all argument values with minimum <= maximum and a
+/// representable range size"): I/O port ranges are ordered, and a fixed 32-bit memory range ends within
+/// the 32-bit address space. Nothing promises that a descriptor outside it is accepted.
+pub fn in_domain(res: Res) -> Res {
+    match res {
+        Res::Io { min, max, align, len } => Res::Io { min: min.min(max), max: min.max(max), align, len },
+        Res::Mem32 { rw, base, len } => {
+            let base = if base as u64 + len as u64 > 1 << 32 { ((1u64 << 32) - len as u64) as u32 } else { base };
+            Res::Mem32 { rw, base, len }
+        }
+        o => o,
+    }
+}
+
 pub fn gen_res(r: &mut Rng) -> Res {
+    in_domain(gen_res_any(r))
+}
+
+fn gen_res_any(r: &mut Rng) -> Res {
     match r.below(7) {
         0 => Res::Mem32 { rw: r.bool(), base: r.u32b(), len: r.u32b() },
         1 => Res::Io { min: r.u16b(), max: r.u16b(), align: r.u8b(), len: r.u8b() },
@@ -161,7 +179,13 @@ fn bx(r: &mut Rng, depth: usize, budget: &mut i64) -> Box<Term> {
 }
 
 pub fn gen_field_entries(r: &mut Rng, max: u64) -> Vec<FieldE> {
-    (0..r.below(max + 1))
+    let n = r.below(max + 1) as usize;
+    gen_field_entries_n(r, n)
+}
+
+/// Exactly `n` field entries.
+pub fn gen_field_entries_n(r: &mut Rng, n: usize) -> Vec<FieldE> {
+    (0..n)
         .map(|_| {
             let w = match r.below(8) {
                 0 => 0,
